@@ -544,6 +544,8 @@ struct LogInner {
     finished_sources: HashSet<u32>,
     /// Attach requests dropped or refused (legitimate only when the task was stopping).
     attach_unconfirmed: u64,
+    /// Fragmented messages of the raw peer with a control frame between two fragments.
+    control_inside_message: u64,
     /// Set when a logical step budget of the case was exceeded: both tasks are dropped at their
     /// next poll (see `Guard`) and the case is judged on what was observed up to then.
     abort: Option<Abort>,
@@ -1866,9 +1868,9 @@ pub fn raw_case(rng: &mut Rng, pool: &[String], out: &mut CaseOut) {
                     }
                     PeerStep::Valid(text, frame, unique) => {
                         let idx = log_send(&log_w, 1, PEER_SRC, &frame, unique, after_invalid);
-                        // One time in six the message travels as 2-3 fragments (cut at character boundaries).
+                        // One time in four the message travels as 2-3 fragments (cut at character boundaries).
                         let mut cuts: Vec<usize> = Vec::new();
-                        if wrng.chance(1, 6) && text.len() > 2 {
+                        if wrng.chance(1, 4) && text.len() > 2 {
                             for _ in 0..wrng.range(1, 2) {
                                 let mut c = wrng.usize_below(text.len());
                                 while !text.is_char_boundary(c) {
@@ -1878,7 +1880,12 @@ pub fn raw_case(rng: &mut Rng, pool: &[String], out: &mut CaseOut) {
                             }
                             cuts.sort();
                         }
-                        let r = rawpeer::write_message(&mut peer_tx, rawpeer::OP_TEXT, text.as_bytes(), &cuts, mask).await;
+                        // Half of the fragmented messages have a ping or an unsolicited pong between two fragments.
+                        let control = if !cuts.is_empty() && wrng.chance(1, 2) { Some((wrng.usize_below(cuts.len()), if wrng.bool() { rawpeer::OP_PING } else { rawpeer::OP_PONG })) } else { None };
+                        if control.is_some() {
+                            log_w.lock().unwrap().control_inside_message += 1;
+                        }
+                        let r = rawpeer::write_message(&mut peer_tx, rawpeer::OP_TEXT, text.as_bytes(), &cuts, mask, control).await;
                         if r.is_err() {
                             log_w.lock().unwrap().sent[idx].failed = true;
                         }
@@ -1943,6 +1950,9 @@ pub fn raw_case(rng: &mut Rng, pool: &[String], out: &mut CaseOut) {
                 );
             }
             evaluate(&world, &l, true, ended, frozen || cut_short, &markers, out);
+            if l.control_inside_message > 0 {
+                out.add("fragmented-messages-with-a-control-frame-inside", l.control_inside_message);
+            }
             if injected {
                 out.count("invalid-frame-injected");
                 if ended {
